@@ -281,4 +281,39 @@ theorem skel_OIDCProvider_GetLoginURL_ok : skel_OIDCProvider_GetLoginURL = ([
   "extraParams.Add",
   "return loginURL.String()"] : List String) := rfl
 
+theorem flags_tokens_ok : flags_tokens = ([
+  "String approval-prompt = \"force\"",
+  "String backend-logout-url = \"\"",
+  "String client-id = \"\"",
+  "String code-challenge-method = \"\"",
+  "StringSlice extra-jwt-issuers = []string{}",
+  "String force-code-challenge-method = \"\"",
+  "Bool insecure-oidc-allow-unverified-email = false",
+  "Bool insecure-oidc-skip-issuer-verification = false",
+  "Bool insecure-oidc-skip-nonce = true",
+  "String login-url = \"\"",
+  "StringSlice oidc-audience-claim = OIDCAudienceClaims",
+  "String oidc-email-claim = OIDCEmailClaim",
+  "StringSlice oidc-extra-audience = []string{}",
+  "String oidc-groups-claim = OIDCGroupsClaim",
+  "String oidc-issuer-url = \"\"",
+  "String oidc-jwks-url = \"\"",
+  "StringSlice oidc-public-key-file = []string{}",
+  "String profile-url = \"\"",
+  "String prompt = \"\"",
+  "String provider = \"google\"",
+  "String redeem-url = \"\"",
+  "String scope = \"\"",
+  "Bool skip-claims-from-profile-url = false",
+  "Bool skip-jwt-bearer-tokens = false",
+  "Bool skip-oidc-discovery = false",
+  "String user-id-claim = OIDCEmailClaim",
+  "String validate-url = \"\""] : List String) := rfl
+
+theorem cfgText_legacyProvider_ok : cfgText_legacyProvider = ([
+  "func LegacyProvider.convert {",
+  "{ providers := Providers{} provider := Provider{ ClientID: l.ClientID, ClientSecret: l.ClientSecret, ClientSecretFile: l.ClientSecretFile, Type: ProviderType(l.ProviderType), CAFiles: l.ProviderCAFiles, UseSystemTrustStore: l.UseSystemTrustStore, LoginURL: l.LoginURL, RedeemURL: l.RedeemURL, ProfileURL: l.ProfileURL, SkipClaimsFromProfileURL: l.SkipClaimsFromProfileURL, ProtectedResource: l.ProtectedResource, ValidateURL: l.ValidateURL, Scope: l.Scope, AllowedGroups: l.AllowedGroups, CodeChallengeMethod: l.CodeChallengeMethod, BackendLogoutURL: l.BackendLogoutURL, AuthRequestResponseMode: l.AuthRequestResponseMode, } provider.OIDCConfig = OIDCOptions{ IssuerURL: l.OIDCIssuerURL, InsecureAllowUnverifiedEmail: l.InsecureOIDCAllowUnverifiedEmail, InsecureSkipIssuerVerification: l.InsecureOIDCSkipIssuerVerification, InsecureSkipNonce: l.InsecureOIDCSkipNonce, SkipDiscovery: l.SkipOIDCDiscovery, JwksURL: l.OIDCJwksURL, UserIDClaim: l.UserIDClaim, EmailClaim: l.OIDCEmailClaim, GroupsClaim: l.OIDCGroupsClaim, AudienceClaims: l.OIDCAudienceClaims, ExtraAudiences: l.OIDCExtraAudiences, PublicKeyFiles: l.OIDCPublicKeyFiles, } if l.ForceCodeChallengeMethod != \"\" && l.CodeChallengeMethod == \"\" { provider.CodeChallengeMethod = l.ForceCodeChallengeMethod } provider.AzureConfig = AzureOptions{ Tenant: l.AzureTenant, GraphGroupField: l.AzureGraphGroupField, } switch provider.Type { case \"github\": provider.GitHubConfig = GitHubOptions{ Org: l.GitHubOrg, Team: l.GitHubTeam, Repo: l.GitHubRepo, Token: l.GitHubToken, Users: l.GitHubUsers, } case \"keycloak-oidc\": provider.KeycloakConfig = KeycloakOptions{ Groups: l.KeycloakGroups, Roles: l.AllowedRoles, } case \"keycloak\": provider.KeycloakConfig = KeycloakOptions{ Groups: l.KeycloakGroups, } case \"gitlab\": provider.GitLabConfig = GitLabOptions{ Group: l.GitLabGroup, Projects: l.GitLabProjects, } case \"login.gov\": provider.LoginGovConfig = LoginGovOptions{ JWTKey: l.JWTKey, JWTKeyFile: l.JWTKeyFile, PubJWKURL: l.PubJWKURL, } case \"bitbucket\": provider.BitbucketConfig = BitbucketOptions{ Team: l.BitbucketTeam, Repository: l.BitbucketRepository, } case \"google\": if len(l.GoogleGroupsLegacy) != 0 && !reflect.DeepEqual(l.GoogleGroupsLegacy, l.GoogleGroups) { logger.Error( \"WARNING: The 'OAUTH2_PROXY_GOOGLE_GROUP' environment variable is deprecated and will likely be removed in the next major release. Use 'OAUTH2_PROXY_GOOGLE_GROUPS' instead.\", ) l.GoogleGroups = l.GoogleGroupsLegacy } provider.GoogleConfig = GoogleOptions{ Groups: l.GoogleGroups, AdminEmail: l.GoogleAdminEmail, ServiceAccountJSON: l.GoogleServiceAccountJSON, UseApplicationDefaultCredentials: l.GoogleUseApplicationDefaultCredentials, TargetPrincipal: l.GoogleTargetPrincipal, } case \"entra-id\": provider.MicrosoftEntraIDConfig = MicrosoftEntraIDOptions{ AllowedTenants: l.EntraIDAllowedTenants, FederatedTokenAuth: l.EntraIDFederatedTokenAuth, } } if l.ProviderName != \"\" { provider.ID = l.ProviderName provider.Name = l.ProviderName } else { provider.ID = l.ProviderType + \"=\" + l.ClientID } // handle AcrValues, Prompt and ApprovalPrompt var urlParams []LoginURLParameter if l.AcrValues != \"\" { urlParams = append(urlParams, LoginURLParameter{Name: \"acr_values\", Default: []string{l.AcrValues}}) } switch { case l.Prompt != \"\": urlParams = append(urlParams, LoginURLParameter{Name: \"prompt\", Default: []string{l.Prompt}}) case l.ApprovalPrompt != \"\": urlParams = append(urlParams, LoginURLParameter{Name: \"approval_prompt\", Default: []string{l.ApprovalPrompt}}) default: urlParams = append(urlParams, LoginURLParameter{Name: \"approval_prompt\", Default: []string{\"force\"}}) } provider.LoginURLParameters = urlParams providers = append(providers, provider) return providers, nil }",
+  "func providerDefaults {",
+  "{ providers := Providers{ { Type: \"google\", AzureConfig: AzureOptions{ Tenant: \"common\", }, OIDCConfig: OIDCOptions{ InsecureAllowUnverifiedEmail: false, InsecureSkipNonce: true, SkipDiscovery: false, UserIDClaim: OIDCEmailClaim, EmailClaim: OIDCEmailClaim, GroupsClaim: OIDCGroupsClaim, AudienceClaims: OIDCAudienceClaims, ExtraAudiences: []string{}, }, }, } return providers }"] : List String) := rfl
+
 end O2P.Expect.C05
